@@ -497,6 +497,8 @@ def stripMacro (op : String) : String :=
   match words op with
   | ["call", a, t, "m"] => s!"call {a} {t}"
   | ["call", a, t, "m0"] => s!"call {a} {t}"
+  | ["call", a, t, "f"] => s!"call {a} {t}"
+  | ["fcall", a, f, t, "f"] => s!"fcall {a} {f} {t}"
   | ["cast", a, v, _] => s!"cast {a} {v}"
   -- ` d`: the same call issued through a `DerivedActorRef` (`get_derived`, converter closure)
   | ["call", a, t, "d"] => s!"call {a} {t}"
